@@ -350,8 +350,7 @@ def check(run):
                    "hand-written Gallina models of the section builder, ParseLines.analyze and compute_path (coq/C01, coq/C02)"]
     run.assumptions = ["only well-formed constructs of the grammar; apostrophe runs adjacent only as the runs of five of a span touching the edge "
                        "of its enclosing span; no newline inside list items, headings or one-line cells; a colon in a list line only as "
-                       "the separator of a one-line definition item, and the line after such an item does not extend its prefix; every "
-                       "table row introduced by |-",
+                       "the separator of a one-line definition item; every table row introduced by |-",
                        "paragraph nodes are compared only for paragraphs directly in a section body (mwlib also wraps lists and "
                        "preformatted blocks into Paragraph nodes, which the property does not speak about)"]
     src = core.snapshot()
